@@ -451,6 +451,11 @@ func (e *Engine) judge(fi *FuncInfo, c *FuncContract, rc *replayCase) string {
 	for i, en := range c.Ensures {
 		ok, evaluable := e.evalClause(en.Expr, e.cenvFor(fi, c, rc, true))
 		if evaluable && !ok {
+			if os.Getenv("GOVC_CVDEBUG") != "" {
+				for k, o := range rc.Outputs {
+					fmt.Fprintf(os.Stderr, "CVDEBUG out[%d] = %s\n", k, o.String())
+				}
+			}
 			return fmt.Sprintf("ensures[%d] is false: %s", i, en.Src)
 		}
 	}
